@@ -54,7 +54,21 @@ size_t vbi_strlen_ucs2(const uint16_t *src)
 #ifdef VERIF_CBMC
 /* error-message formatting (vbi_export_error_printf and friends): CBMC has no body for the printf family and would
    leave the buffer unterminated; the message text is outside every claim -> empty string */
-int vsnprintf(char *s, size_t n, const char *fmt, va_list ap) { (void) fmt; (void) ap; if (n > 0) s[0] = 0; return 0; }
+/* template "%s" (obligation write_printf): C99 7.19.6.12 - at most n-1 characters are written, then a NUL (nothing if n == 0); the
+   return value is the number of characters that would have been written had n been large enough, never negative */
+int vsnprintf(char *s, size_t n, const char *fmt, va_list ap)
+{
+  if (fmt[0] == '%' && fmt[1] == 's' && fmt[2] == 0) {
+    const char *a = va_arg(ap, const char *);
+    size_t i;
+    for (i = 0; a[i] != 0; i++)
+      if (i + 1 < n) s[i] = a[i];
+    if (n > 0) s[i < n - 1 ? i : n - 1] = 0;
+    return (int) i;
+  }
+  if (n > 0) s[0] = 0;
+  return 0;
+}
 int snprintf(char *s, size_t n, const char *fmt, ...) { (void) fmt; if (n > 0) s[0] = 0; return 0; }
 char *strerror(int e) { static char msg[2] = "E"; (void) e; return msg; }
 char *dgettext(const char *d, const char *m) { (void) d; return (char *) m; }
